@@ -522,8 +522,13 @@ class Directory(object):
                                 ' an computation %s ', subscriber, computation)
 
     def register_replica(self, replica: ComputationName, agent: AgentName):
-        self.discovery.register_replica(
-            replica, agent, publish=False)
+        try:
+            self.discovery.register_replica(
+                replica, agent, publish=False)
+        except UnknownComputation:
+            # The computation has been unregistered while the replica
+            # registration was on its way: nothing to register.
+            return
         for interested in self._subscription_replicas[replica]:
             self.directory_computation.notify_replica_registered(
                 interested, replica, agent)
